@@ -32,6 +32,39 @@ struct Ref<'a> {
 
 struct Failed;
 
+/// What starts a cascade from outside: a command to lane c (runs the root handler) or a command
+/// envelope addressed directly to lane v, w or m.
+#[derive(Clone, Copy, Debug, PartialEq, Eq)]
+pub enum RootEv {
+    Cmd,
+    ExtSetV(i32),
+    ExtSetW(i32),
+    ExtUpd(i32, i32),
+    ExtRem(i32),
+    ExtClr,
+}
+
+pub fn roots_of(script: &[(usize, Step)]) -> Vec<RootEv> {
+    let mut out = vec![];
+    for (_, s) in script {
+        if let Step::Cmd(lane, body) = s {
+            match lane.as_str() {
+                "c" => out.push(RootEv::Cmd),
+                "v" => out.push(RootEv::ExtSetV(body.trim().parse().unwrap_or(0))),
+                "w" => out.push(RootEv::ExtSetW(body.trim().parse().unwrap_or(0))),
+                "m" => match parse_map_event(body) {
+                    Some(MapEv::Update(k, v)) => out.push(RootEv::ExtUpd(k, v)),
+                    Some(MapEv::Remove(k)) => out.push(RootEv::ExtRem(k)),
+                    Some(MapEv::Clear) => out.push(RootEv::ExtClr),
+                    None => {}
+                },
+                _ => {}
+            }
+        }
+    }
+    out
+}
+
 fn mapv(m: &BTreeMap<i32, i32>) -> Vec<(i32, i32)> {
     m.iter().map(|(k, v)| (*k, *v)).collect()
 }
@@ -118,7 +151,7 @@ impl<'a> Ref<'a> {
                 };
                 self.exec(b, s)?;
             }
-            H::Seq(a, b) => {
+            H::Seq(a, b) | H::Then(a, b) => {
                 self.exec(a, y)?;
                 self.exec(b, y)?;
             }
@@ -131,7 +164,7 @@ impl<'a> Ref<'a> {
 
 /// The expected trace. Where the documentation leaves the order open (when a suspended cascade
 /// runs relative to later commands) the observed trace, if given, chooses among the legal orders.
-pub fn expected(p: &Program, ncmds: usize, observed: Option<(&[String], bool)>) -> Expect {
+pub fn expected(p: &Program, roots: &[RootEv], observed: Option<(&[String], bool)>) -> Expect {
     let mut r = Ref { p, v: 0, w: 0, m: BTreeMap::new(), out: vec![], pending: vec![], nested_bodies: 0 };
     let mut notes = vec![];
     let fin = |r: Ref, failed_in: Option<&'static str>, notes: Vec<(String, String)>| Expect {
@@ -146,24 +179,15 @@ pub fn expected(p: &Program, ncmds: usize, observed: Option<(&[String], bool)>) 
     if r.body(START).is_err() {
         return fin(r, Some("on_start"), notes);
     }
-    let mut cmds = 0;
+    let mut next_root = 0;
     loop {
         let next_obs = observed.and_then(|(o, _)| o.get(r.out.len()));
         let mut pick: Option<usize> = None; // index into pending
-        let mut do_cmd = false;
-        if let Some(e) = next_obs {
-            if let Some(t) = e.strip_prefix("susp#").and_then(|t| t.parse::<i32>().ok()) {
-                pick = r.pending.iter().position(|x| x.0 == t);
-            } else if e.starts_with("cmd(") && cmds < ncmds {
-                do_cmd = true;
-            }
+        if let Some(t) = next_obs.and_then(|e| e.strip_prefix("susp#")).and_then(|t| t.parse::<i32>().ok()) {
+            pick = r.pending.iter().position(|x| x.0 == t);
         }
-        if pick.is_none() && !do_cmd {
-            if !r.pending.is_empty() {
-                pick = Some(0);
-            } else if cmds < ncmds {
-                do_cmd = true;
-            }
+        if pick.is_none() && !r.pending.is_empty() && (observed.is_none() || next_root >= roots.len()) {
+            pick = Some(0);
         }
         if let Some(ix) = pick {
             let (t, h, y) = r.pending.remove(ix);
@@ -171,10 +195,21 @@ pub fn expected(p: &Program, ncmds: usize, observed: Option<(&[String], bool)>) 
             if r.exec(&h, y).is_err() {
                 return fin(r, Some("suspended"), notes);
             }
-        } else if do_cmd {
-            cmds += 1;
-            r.out.push("cmd(go)".into());
-            if r.body(ROOT).is_err() {
+        } else if next_root < roots.len() {
+            let ev = roots[next_root];
+            next_root += 1;
+            let res = match ev {
+                RootEv::Cmd => {
+                    r.out.push("cmd(go)".into());
+                    r.body(ROOT)
+                }
+                RootEv::ExtSetV(x) => r.exec(&H::SetV(X::Lit(x)), 0),
+                RootEv::ExtSetW(x) => r.exec(&H::SetW(X::Lit(x)), 0),
+                RootEv::ExtUpd(k, x) => r.exec(&H::Upd(k, X::Lit(x)), 0),
+                RootEv::ExtRem(k) => r.exec(&H::Rem(k), 0),
+                RootEv::ExtClr => r.exec(&H::Clr, 0),
+            };
+            if res.is_err() {
                 // documented: "Fail with an error. In this case all execution will stop and the agent will fail."
                 let continues = observed.map(|(o, ok)| o.len() > r.out.len() || ok).unwrap_or(false);
                 if continues {
@@ -246,10 +281,10 @@ pub fn checker(obs: &Observation) -> Vec<(String, String)> {
         Ok(p) => p,
         Err(e) => return vec![("machinery: bad program".into(), e.to_string())],
     };
-    let ncmds = obs.cfg.script.iter().filter(|(_, s)| matches!(s, Step::Cmd(l, _) if l == "c")).count();
+    let roots = roots_of(&obs.cfg.script);
     let got = observed_trace(obs);
     let got_ok = matches!(obs.result, Some(Ok(())));
-    let exp = expected(&prog, ncmds, Some((&got, got_ok)));
+    let exp = expected(&prog, &roots, Some((&got, got_ok)));
     let mut out = vec![];
     let describe = |what: &str| {
         format!(
@@ -292,8 +327,10 @@ pub fn checker(obs: &Observation) -> Vec<(String, String)> {
         (_, None) => out.push(("law=agent_result got=never_completed".to_string(), describe("the agent task never completed"))),
         _ => {}
     }
-    // what a linked remote saw: the last event of each lane is the lane's final content
-    if out.iter().all(|(s, _)| s.starts_with("law=fail_ends_agent")) && exp.failed_in.is_none() {
+    // what a linked remote saw: the last event of each lane is the lane's final content (only for
+    // executions in which no handler failed: the property says nothing about the uplinks of an agent
+    // that should have failed)
+    if out.is_empty() && exp.notes.is_empty() && exp.failed_in.is_none() {
         if let Some(r) = obs.remotes.first() {
             let first_cmd = r.sent.iter().find(|(_, s)| matches!(s, Step::Cmd(..))).map(|(st, _)| *st).unwrap_or(0);
             let linked = |lane: &str| r.sent.iter().any(|(st, s)| *st < first_cmd && matches!(s, Step::Link(l) if l == lane));
